@@ -29,9 +29,33 @@ pub(crate) struct Instant {
 }
 
 impl Instant {
+    #[cfg(not(btdht_verif))]
     pub fn now() -> Self {
         Self {
             std_instant: StdInstant::now().checked_add(OFFSET).unwrap(),
+        }
+    }
+
+    // Verification hook: follow tokio's clock so that a paused (virtual) clock drives the whole
+    // crate. With an unpaused clock this is the same as the function above.
+    #[cfg(btdht_verif)]
+    pub fn now() -> Self {
+        Self {
+            std_instant: tokio::time::Instant::now()
+                .into_std()
+                .checked_add(OFFSET)
+                .unwrap(),
+        }
+    }
+
+    // Verification hook: milliseconds (possibly negative) between `epoch` and this instant.
+    #[cfg(btdht_verif)]
+    pub(crate) fn verif_ms_since(&self, epoch: StdInstant) -> i64 {
+        let this = self.std_instant - OFFSET;
+        if this >= epoch {
+            (this - epoch).as_millis() as i64
+        } else {
+            -((epoch - this).as_millis() as i64)
         }
     }
 
